@@ -78,6 +78,7 @@ type Scenario struct {
 	Pins      []sim.Pin `json:"pins,omitempty"`
 	NoHooks   bool      `json:"no_hooks,omitempty"`
 	Push      bool      `json:"push,omitempty"` // the servers are push-enabled (LoopOptions.ServerOptions.AllowPush)
+	SlotCtx   bool      `json:"slot_ctx,omitempty"` // one slot per server, and every request context derives from the loop's context (ServerOptions.Concurrency 1, NewContext)
 	Steps     []Step    `json:"steps"`
 }
 
@@ -336,8 +337,14 @@ func run(t *testing.T, sc Scenario) engine.Verdict {
 			loopDone := make(chan struct{})
 			go func() {
 				var lopts *server.LoopOptions
-				if sc.Push {
-					lopts = &server.LoopOptions{ServerOptions: &jrpc2.ServerOptions{AllowPush: true}}
+				if sc.Push || sc.SlotCtx {
+					so := &jrpc2.ServerOptions{AllowPush: sc.Push}
+					if sc.SlotCtx {
+						// requests waiting for the only slot give up when the loop's context ends
+						so.Concurrency = 1
+						so.NewContext = func() context.Context { return ctx }
+					}
+					lopts = &server.LoopOptions{ServerOptions: so}
 				}
 				err := server.Loop(ctx, theAccepter, newService, lopts)
 				e := event{kind: "loopret"}
@@ -853,6 +860,7 @@ func genScenarioMode(t *rapid.T, netMode bool) Scenario {
 	sc := Scenario{Salt: rapid.Uint64().Draw(t, "salt"), Net: netMode}
 	pushMode := rapid.IntRange(0, 2).Draw(t, "pushmode") == 0
 	sc.Push = pushMode
+	sc.SlotCtx = rapid.IntRange(0, 3).Draw(t, "slotctx") == 0
 	if netMode && rapid.IntRange(0, 7).Draw(t, "precancel") == 0 {
 		sc.PreCancel = true
 	}
